@@ -141,7 +141,11 @@ def check_c03(prog, rep, tier, cfg):
     # C03.f — measurements memoised by the first wrapping pass do not outlive the text they were taken from (shared with C11.d; 1 known finding)
     layout.check_c11(prog, AliasReport(rep, [("C11.d", r".", "C03.f")]), tier, cfg)
     # C03.e — the surviving layout fact is a projection
-    layout.check_c06(prog, AliasReport(rep, [("C06.a", r"newline-count-read-only-as-clamp|whitespace-reduced-to-counts|anchor:reconstruct_solution|anchor:FormattingData::from", "C03.e")]), tier, cfg)
+    # C03.h — a line is wrapped a second time after its strings were rewritten: every decision of the second solution overwrites all three
+    # counters, so nothing the first solution stored (an indentation for a token that is now continued) survives into the output, where
+    # the next run — which wraps once — would not produce it (shared with C06.b)
+    layout.check_c06(prog, AliasReport(rep, [("C06.a", r"newline-count-read-only-as-clamp|whitespace-reduced-to-counts|anchor:reconstruct_solution|anchor:FormattingData::from", "C03.e"),
+                                             ("C06.b", r"^every-decision-overwrites|^one-decision-loop", "C03.h")]), tier, cfg)
 
 
 PROPERTIES = {
